@@ -913,11 +913,16 @@ class HostConnectionPool(object):
                 self.is_shutdown = True
 
         self._signal_all_available_conn()
-        for conn in self._connections:
+        # _maybe_trash_connection moves a connection from _connections to _trash under
+        # self._lock: take both under the same lock, or a connection in transit is in neither
+        with self._lock:
+            connections = self._connections
+            trash_conns = list(self._trash)
+        for conn in connections:
             conn.close()
             self.open_count -= 1
 
-        for conn in self._trash:
+        for conn in trash_conns:
             conn.close()
 
     def ensure_core_connections(self):
